@@ -64,14 +64,14 @@ Lemma emit_class_head cl : exists x rest, emit_class cl = x :: rest /\ (x =? c_c
 Proof.
   unfold emit_class. destruct (w_eqb cl w_punct_name); [now eexists _, _|]. destruct (w_eqb cl w_digit_name); now eexists _, _.
 Qed.
-Lemma wc_head : forall s acc d, exists x rest, wrap true (WC acc) d s = x :: rest /\ (x =? c_colon) = false.
+Lemma wc_head : forall s acc d, exists x rest, wrap true true false (WC acc) d s = x :: rest /\ (x =? c_colon) = false.
 Proof.
   induction s as [|c s IH]; intros acc d; cbn [wrap]; [now eexists _, _|].
   destruct (c =? c_rb); [|apply IH].
   destruct (emit_class_head (acc ++ [c])) as (x & rest & -> & Hx). now eexists _, _.
 Qed.
 Lemma wb_head c2 s2 d : (c2 =? c_colon) = false ->
-  exists x rest, wrap true (WB false false) d (c2 :: s2) = x :: rest /\ (x =? c_colon) = false.
+  exists x rest, wrap true true false (WB false false) d (c2 :: s2) = x :: rest /\ (x =? c_colon) = false.
 Proof.
   intros H. cbn [wrap andb]. destruct (c2 =? c_rb); [now eexists _, _|].
   destruct (c2 =? c_lb) eqn:E; [|now eexists _, _].
@@ -79,7 +79,7 @@ Proof.
   destruct s2 as [|d2 s3]; [now eexists _, _|]. destruct (d2 =? c_colon); [apply wc_head|now eexists _, _].
 Qed.
 
-Lemma wrap_safe_len : forall n s q r d, length s <= n -> wf_state q -> reads q r -> closed_early r d (wrap true q d s) = false.
+Lemma wrap_safe_len : forall n s q r d, length s <= n -> wf_state q -> reads q r -> closed_early r d (wrap true true false q d s) = false.
 Proof.
   induction n as [|n IH]; intros s q r d Hlen Hwf Hr.
   - destruct s; [|cbn in Hlen; lia].
@@ -125,7 +125,7 @@ Proof.
           + (* the "[" is written later: the reader is still where it was *)
             apply IH; [cbn [length] in Hs; lia| |exact I]. exists []. split; [now apply Nat.eqb_eq in E5; subst|reflexivity].
           + destruct (wb_head c2 s2 d E5) as (x & rest & Ew & Hx).
-            assert (Hgoal : closed_early (QB false false) d (wrap true (WB false false) d (c2 :: s2)) = false)
+            assert (Hgoal : closed_early (QB false false) d (wrap true true false (WB false false) d (c2 :: s2)) = false)
               by (apply IH; [exact Hs|exact I|split; reflexivity]).
             cbn [closed_early]. rewrite E1, E2', E3, E4. rewrite Ew in *. rewrite Hx. exact Hgoal. }
       cbn [closed_early]. rewrite E1, E2', E3, E4. apply IH; [exact Hs|exact I|split; reflexivity].
@@ -137,5 +137,23 @@ Proof.
 Qed.
 
 (* for every pattern: the wrapped text cannot close the wrapping group *)
-Theorem inside_group_never_closes : forall p, closed_early QT 0 (inside_group true p) = false.
+Theorem inside_group_never_closes : forall p, closed_early QT 0 (inside_group true true false p) = false.
 Proof. intros p. unfold inside_group. now apply (wrap_safe_len (length p)). Qed.
+
+(* emacs (no extended groups, no character classes, no newline alternation): only what follows a backslash is ever rewritten *)
+Definition plain_state (q : wst) : Prop := match q with WT false => True | WB _ _ => True | _ => False end.
+Lemma wrap_emacs_plain : forall s q d, forallb (fun c => negb (c =? c_bs)) s = true -> plain_state q ->
+  wrap false false false q d s = s.
+Proof.
+  induction s as [|c s IH]; intros q d Hs Hq.
+  - destruct q as [[|]| | |]; cbn in Hq; try contradiction; reflexivity.
+  - cbn [forallb] in Hs. apply andb_true_iff in Hs as [Hc Hs]. apply negb_true_iff in Hc.
+    destruct q as [[|]| |mc mr|]; cbn in Hq; try contradiction; cbn [wrap andb].
+    + rewrite Hc. destruct (c =? c_lb); rewrite IH; auto; exact I.
+    + destruct (mc && (c =? c_caret)); [rewrite IH; auto; exact I|].
+      destruct (mr && (c =? c_rb)); [rewrite IH; auto; exact I|].
+      destruct (c =? c_rb); [rewrite IH; auto; exact I|].
+      destruct (c =? c_lb); rewrite IH; auto; exact I.
+Qed.
+Theorem emacs_text_unchanged p : forallb (fun c => negb (c =? c_bs)) p = true -> inside_group false false false p = p.
+Proof. intros H. unfold inside_group. now apply wrap_emacs_plain. Qed.
